@@ -680,6 +680,18 @@ func (po *PinOptions) Equals(po2 *PinOptions) bool {
 		}
 	}
 
+	for _, o2 := range po2.Origins {
+		found := false
+		for _, o1 := range po.Origins {
+			if o2.Equal(o1) {
+				found = true
+			}
+		}
+		if !found {
+			return false
+		}
+	}
+
 	return true
 }
 
